@@ -10,13 +10,14 @@ MANIFEST = {
     "technique": "Coq rules + induction over list length for the tail loop + differential check with step counts around the depth limit + stack probes on the binary",
 }
 TARGETS = ["Properties/C07.v", "Eval/PreludeState.v"]
-IMPORTS = ["Eval.EvalRules", "Eval.SemProofs", "Eval.TailProofs", "Properties.C07"]
+IMPORTS = ["Eval.EvalRules", "Eval.SemProofs", "Eval.TailProofs", "Eval.PreludeState", "Eval.PreludeProofs", "Eval.LengthProofs", "Properties.C07"]
 THEOREMS = [
     ("C07_tail_if", 'forall f st st\' e env m d q c t o st1 cv, poll st = (st\', None) -> list_to_vec e = Some [q; c; t; o] -> is_sym q (s "lambda") = false -> is_sym q (s "quote") = false -> is_sym q (s "if") = true -> eval_internal f st\' c env m (d + 1)%N = (st1, ROk cv) -> eval_loop (S f) st e env m d = eval_loop f st1 (if is_nil cv then o else t) env m d'),
     ("C07_tail_call", "forall f st st' e env m d first rest st1 op mac restp params body cenv cmod st2 args newenv, poll st = (st', None) -> list_to_vec e = Some (first :: rest) -> special_form first = false -> eval_internal f st' first env m (d + 1)%N = (st1, ROk op) -> getv op = VFun mac restp params body cenv cmod -> eval_args f env m d st1 rest [] = (st2, inl args) -> pair_params (call_source e) params restp args cenv 0 (List.length args) = inl newenv -> eval_loop (S f) st e env m d = eval_loop f st2 body newenv cmod d"),
     ("C07_tail_eval", 'forall f st st\' e env m d first rest st1 op st2 x st3 x\', poll st = (st\', None) -> list_to_vec e = Some (first :: rest) -> special_form first = false -> eval_internal f st\' first env m (d + 1)%N = (st1, ROk op) -> getv op = VNative (s "eval") -> eval_args f env m d st1 rest [] = (st2, inl [x]) -> expand_completely f st2 x env m (d + 1)%N = (st3, ROk x\') -> eval_loop (S f) st e env m d = eval_loop f st3 x\' env m d'),
     ("C07_depth_guard", 'forall f st e env m d, (MAXD < d)%N -> eval_internal (S f) st e env m d = (st, RSig (make_error "stackoverflow" (s "eval") []))'),
     ("C07_loop_any_length", "forall (xs : list val) (d : N) (st : state), good st -> (d + 2 <= MAXD)%N -> exists fuel st', eval_loop fuel st walk_body (env_of (vec_to_list xs)) dflt d = (st', ROk done) /\\ good st'"),
+    ("C07_prelude_length_constant_depth", "forall xs, in_i64 (Z.of_nat (List.length xs)) = true -> length_statement xs"),
 ]
 
 DEFS = ("(defun loop-if (n) \"\" (if (= n 0) 'done (loop-if (substract n 1)))) "
